@@ -374,12 +374,14 @@ def match_known(known, pid, clause, tags):
 
 
 def sany_check(modules):
-    """Parse modules with SANY (setup / machinery sanity)."""
-    bad = []
-    for m in modules:
+    """Parse modules with SANY (setup / machinery sanity), in parallel."""
+    def one(m):
         p = subprocess.run(['java', '-cp', TLA_CP, 'tla2sany.SANY', m], cwd=SPEC, capture_output=True, text=True)
-        if p.returncode != 0 or 'error' in (p.stdout + p.stderr).lower().replace('semantic errors:\n\n', ''):
-            if 'Semantic errors' in p.stdout or 'Parse Error' in p.stdout or p.returncode != 0 \
-                    or 'Could not' in p.stdout:
-                bad.append((m, (p.stdout + p.stderr)[-1500:]))
-    return bad
+        out = p.stdout + p.stderr
+        if p.returncode != 0 or 'Semantic errors' in out or 'Parse Error' in out or 'Could not' in out \
+                or '*** Errors' in out or 'Fatal errors' in out:
+            return (m, out[-1500:])
+        return None
+    with ThreadPoolExecutor(max_workers=NCPU) as ex:
+        res = list(ex.map(one, modules))
+    return [r for r in res if r]
